@@ -132,8 +132,37 @@ class RepoInterp:
             if not rets and len(paths) == 1 and raises:
                 from .terms import InlinedRaise
                 raise InlinedRaise(str(raises[0].value))
+            # several return paths selected by comparisons of the arguments: a case distinction (sympy Piecewise); the
+            # caller decides every case separately
+            if rets and not others:
+                pw = self._piecewise(fi, level, rets)
+                if pw is not None:
+                    return pw
             raise Unsupported(f"helper {fi.qname} has {len(paths)} paths")
         return paths
+
+    def _piecewise(self, fi: FuncInfo, level: int, rets: List[Path]):
+        import sympy as sp
+        ti = self._interp(fi, level)
+        rel = {ast.Eq: sp.Eq, ast.NotEq: sp.Ne, ast.Lt: sp.Lt, ast.LtE: sp.Le, ast.Gt: sp.Gt, ast.GtE: sp.Ge}
+
+        def cond(node, env):
+            if isinstance(node, ast.UnaryOp) and isinstance(node.op, ast.Not):
+                return sp.Not(cond(node.operand, env))
+            if isinstance(node, ast.BoolOp):
+                parts = [cond(v, env) for v in node.values]
+                return sp.And(*parts) if isinstance(node.op, ast.And) else sp.Or(*parts)
+            if isinstance(node, ast.Compare) and len(node.ops) == 1 and type(node.ops[0]) in rel:
+                return rel[type(node.ops[0])](sp.sympify(ti.ev(node.left, env)), sp.sympify(ti.ev(node.comparators[0], env)))
+            raise Unsupported(f"branch condition {norm(node)} of helper {fi.qname} is not a comparison")
+        args = []
+        try:
+            for p in rets:
+                cs = [cond(ast.parse(c, mode="eval").body, p.env) for c in p.conds]
+                args.append((sp.sympify(p.value), sp.And(*cs) if cs else sp.true))
+        except (Unsupported, SyntaxError, TypeError):
+            return None
+        return sp.Piecewise(*args)
 
     def paths(self, fi: FuncInfo, env_args: Dict[str, Any]) -> List[Path]:
         return self.call_function(fi, [], env_args, 0)
